@@ -13,6 +13,7 @@
 # limitations under the License.
 
 import traceback
+import types
 
 import qcore.helpers as core_helpers
 import qcore.events as core_events
@@ -150,6 +151,13 @@ class FutureBase(object):
 
     def raise_if_error(self):
         if self._error is not None:
+            if hasattr(self._error, "_type_"):
+                tb = getattr(self._error, "_traceback", _none)
+                if not (tb is None or isinstance(tb, types.TracebackType)):
+                    # not the stamp of prepare_for_reraise(): an exception class with _type_ /
+                    # _traceback attributes of its own (a wire-format discriminator, the
+                    # text of a remote traceback), which reraise() would trip over
+                    raise self._error
             core_errors.reraise(self._error)
 
     def __call__(self):
